@@ -18,7 +18,7 @@ else git reset -q --hard; echo "PATCH DOES NOT APPLY: $patch"; exit 3; fi
 cd /verif
 for id in "$@"; do
   echo "=== $id with $patch"
-  VERIF_RUNNER_DIR=$MX/runner VERIF_OUT_DIR=$MX/out timeout ${TMO:-1200} ./check "$id" --tier "${TIER:-quick}" 2>&1 | grep -v "^KNOWN-FINDING" | tail -${TAIL:-6} | cut -c1-${CUT:-260}
+  VERIF_RUNNER_DIR=$MX/runner VERIF_OUT_DIR=$MX/out timeout ${TMO:-1200} ./check "$id" --tier "${TIER:-quick}" ${EXTRA:-} 2>&1 | grep -v "^KNOWN-FINDING" | tail -${TAIL:-6} | cut -c1-${CUT:-260}
   echo "exit=${PIPESTATUS[0]}"
 done
 (cd $MX/repo && git reset -q --hard)
